@@ -59,7 +59,7 @@ def run(tier, seed):
     k = 0
     for name, n in (("twice", 2), ("thrice", 3), ("once", 1)):
         for j in range(n):
-            multi += PC.emit_fn(9000 + k, {"receiver": "app", "placed": "ok_recv", "method": "emit", "lit": True}, name="dup-" + name)
+            multi += PC.emit_fn(9000 + k, {"receiver": "app", "placed": "ok_recv", "frames": [], "method": "emit", "lit": True}, name="dup-" + name)
             k += 1
     for mode in ("none", "zod"):
         b, res, texts = PC.run_project(d, "multi-" + mode, {"src/lib.rs": multi, "src/other.rs": multi.replace("emitter_", "other_emitter_").replace("anchor_cmd", "anchor2").replace("pub struct Ctx", "pub struct Ctx2").replace("impl Ctx", "impl Ctx2").replace("&Ctx", "&Ctx2").replace("fn helper", "fn helper2")}, mode=mode)
